@@ -41,6 +41,15 @@ CHECKS["C02"] = dict(
     text="Exhaustive over the carry grid (every ms/s/min/h/24 h boundary +-1 us, integer and SCC-style thirds of a microsecond) for seven writers, and over all SAMI cue lists of <= 3 cues on a millisecond grid containing 0; random sets beyond (merge runs, WebVTT multi-layout splits, several languages). Written fields are read off by scanners that are not pycaption's and judged by TLC in exact arithmetic, cue structure included.",
     design="4 C02")
 
+CHECKS["C03"] = dict(
+    technique="TLA+ spec TextCodec.tla: TLC checks the escapers' design models against the reference decoders on all token strings (MC_TextCodec) and judges the payload that independent parsers (lxml strict, html.parser, WebVTT/SRT/MicroDVD block scanners) extract from the output of seven writers (Trace_TextCodec; WebVTT cue text decoded in TLA+)",
+    text="Exhaustive within the bound: every text of up to 2 tokens over 3 lines (quick) / 3 tokens over 2 lines (thorough; 4-token lines model-checked) over a 26-token metacharacter alphabet, empty lines in both node encodings, written by seven writers and read back by parsers that are not pycaption's; plus fixed longer metacharacter sequences and random printable Unicode from all planes. Cue count and per-line text equality are decided by TLC.",
+    design="4 C03")
+CHECKS["C04"] = dict(
+    technique="TLA+ spec TextCodec.tla (Display): TLC enumerates all sequences of authored units (MC_ReadText) and judges the text the five readers return for documents produced by the harness's own serialisers (Trace_TextCodec)",
+    text="Exhaustive within the bound: every sequence of up to 2 (quick) / 3 (thorough) units over 34 authored units (characters, references in three spellings, literal entity-looking text, nested tagged spans, WebVTT voice/class/ruby/lang/timestamp/unknown tags, wraps, breaks) for each format the units exist in; random long sequences with all HTML named entities and supplementary-plane references beyond. Two open known findings are re-validated with exactly that deviation enabled.",
+    design="4 C04")
+
 NOT_YET = {}
 
 
